@@ -57,7 +57,7 @@ fn check_components(func: &str, parts: &[HashSet<String>], d: &Dense, same: &dyn
 
 pub fn run_c10(a: &Args) {
     let kinds = kinds8();
-    let total: u64 = if a.thorough { 60_000 } else { 12_000 };
+    let total: u64 = if a.thorough { 400_000 } else { 12_000 };
     for idx in 0..total {
         if !ctx::mine(idx) {
             continue;
@@ -290,7 +290,7 @@ fn c11_case(rng: &mut Rng, multi: bool) -> GCase {
 }
 
 pub fn run_c11(a: &Args) {
-    let total: u64 = if a.thorough { 50_000 } else { 12_000 };
+    let total: u64 = if a.thorough { 600_000 } else { 12_000 };
     for idx in 0..total {
         if !ctx::mine(idx) {
             continue;
@@ -619,7 +619,7 @@ pub fn run_c12(a: &Args) {
         }
     }
     // (b) random graphs and partitions for the formula
-    let total: u64 = if a.thorough { 40_000 } else { 10_000 };
+    let total: u64 = if a.thorough { 400_000 } else { 10_000 };
     let base = 1000;
     for r in 0..total {
         let idx = base + r;
@@ -992,7 +992,7 @@ fn documented_iteration(d: &Dense, weighted: bool, tol: f64, max_steps: usize) -
 }
 
 pub fn run_c18(a: &Args) {
-    let total: u64 = if a.thorough { 30_000 } else { 8_000 };
+    let total: u64 = if a.thorough { 300_000 } else { 8_000 };
     for idx in 0..total {
         if !ctx::mine(idx) {
             continue;
